@@ -56,6 +56,9 @@ func runOnce(t vlib.TB, c faultCase) result {
 	}
 	res.out = r.Complete(budgetFor(c.S))
 	res.final = r.FinalState()
+	if ro, ok := res.final["rollout"].(map[string]any); ok {
+		delete(ro, "step") // where the cursor stood when the rollout was cancelled / deleted is timing
+	}
 	if sf != nil {
 		res.fired = sf.Fired
 	}
@@ -97,9 +100,31 @@ func judge(t vlib.TB, c faultCase, base result, f result) {
 	if res := f.run.CheckRestored(); len(res) > 0 && len(base.run.CheckRestored()) == 0 {
 		vlib.Fail(t, chk, "c06-leak-or-half-configured", c, "with %v injected the final cluster is not clean: %s", c.Faults, strings.Join(res, "; "))
 	}
+	// the differential is only meaningful when the same user actions took effect in both runs (an
+	// action that is not enabled, or falls into a listed finding's class, at the shifted moment is skipped)
+	if !reflect.DeepEqual(userEffects(base.run), userEffects(f.run)) {
+		vlib.Class(chk, "differential-skipped-user-actions-diverged")
+		return
+	}
 	if d := diffStates(base.final, f.final); d != "" {
 		vlib.Fail(t, chk, "c06-final-state-differs", c, "with %v injected the final cluster differs from the fault-free run:\n%s\nfault log: %v", c.Faults, d, f.run.W.FaultLog)
 	}
+}
+
+// userEffects lists the user actions that took effect, without their positions.
+func userEffects(r *sim.Run) []string {
+	var out []string
+	for _, l := range r.UserLog {
+		if i := strings.Index(l, " "); i >= 0 {
+			l = l[i+1:]
+		}
+		if strings.HasPrefix(l, "approve") {
+			continue
+		}
+		out = append(out, l)
+	}
+	sort.Strings(out)
+	return out
 }
 
 func sampleIdx(n, max int) []int {
@@ -129,7 +154,11 @@ func TestC06FaultEnumeration(t *testing.T) {
 	}
 	thorough := vlib.Thorough()
 	rapid.Check(t, func(t *rapid.T) {
-		b := sim.Bias{MaxActions: 60, UserWeights: map[string]int{sim.UserApprove: 10, sim.UserRollback: 2, sim.UserDelete: 2, sim.UserDisable: 1, sim.UserRelease: 1, sim.UserScale: 1}}
+		// only user actions whose effect on the final state does not depend on when exactly they
+		// land relative to controller progress (a crash shifts the schedule): approvals, pause /
+		// resume, scale, delete, disable. Rollback / superseding release / jump / plan edit end in
+		// timing-dependent states and are exercised under faults by the monitors of the other checks.
+		b := sim.Bias{MaxActions: 60, UserWeights: map[string]int{sim.UserApprove: 10, sim.UserPause: 1, sim.UserResume: 2, sim.UserDelete: 2, sim.UserDisable: 1, sim.UserScale: 1}}
 		s := sim.GenScenario(t, b)
 		c := faultCase{S: s, H: sim.GenHistory(t, s, b)}
 		base := runOnce(t, c)
